@@ -98,6 +98,14 @@ RULES = [
     'rule g{ reactant r g1 ( a => b ) form bond (a,b)}',
 ]
 
+# every form of the (unsupported) constraints block of a rule: reading must end with a RING error, never a KeyError
+CONSTRAINTS = ['r.size >1', 'r.size = 3', 'r.charge = 0', 'r is cyclic', 'r is aromatic', 'r is oxygenate', 'r is heteroaromatic',
+               'r is bridged', 'r is foo', 'r.formula is C2H6', 'r.formula is C 2 H 6', 'r contains 2 of f', 'r contains f',
+               'r contains group g', 'r contains >1 of group g', '! r is cyclic', 'r is cyclic && r.size <5', '( r is cyclic )',
+               '( r.size >1 || r is aromatic )', 'r.size + q.size <9', 'r is', 'r', '', 'r.formula is', 'r contains 2 of', 'is cyclic',
+               'fragment f{ C labeled a } r contains f']
+RULES += ['rule k{ reactant r{ C labeled c1} constraints{ %s } increase formal charge (c1) decrease formal charge (c1)}' % c for c in CONSTRAINTS]
+
 
 def malformed(rng, text):
     k = rng.random()
